@@ -91,7 +91,8 @@ func runSlowRefresh(dir, format, ip, oldName, newName string) string {
 // slowhosts (C12): the first load of the hosts file is slow (named pipe); a second query for a
 // listed name, in another spelling, arrives while it is in progress. Both must be answered
 // locally: a lookup that overtakes the load finds empty tables and the name goes upstream.
-//   case: slowhosts <namehex> <ip>      impl: A=<L|U> B=<L|U>   (L answered locally, U asked the upstream)
+//
+//	case: slowhosts <namehex> <ip>      impl: A=<L|U> B=<L|U>   (L answered locally, U asked the upstream)
 func runSlowHosts(dir, name, ip string) string {
 	pipe := filepath.Join(dir, "hosts.pipe")
 	_ = os.Remove(pipe)
